@@ -25,6 +25,11 @@ ASSUMPTIONS = ['with user radii that make spheres overlap any site whose sphere 
                'inner in {-1, outer} is demanded only when the outer assignment is unique']
 
 
+def pre_build():
+    import translate
+    return [translate.gen_site_radius()]
+
+
 def gen_cases(rng, tier):
     n = {'quick': 150, 'thorough': 3000, 'search': 100}[tier]
     cases = []
@@ -85,6 +90,7 @@ def impl(case):
     if case['mode'] == 'auto':
         amp = TrajectoryMetrics(traj).vibration_amplitude()
         try:
+            out['vib'] = float(amp)
             out['auto_radius'] = float(_compute_site_radius(trajectory=traj, sites=sites, vibration_amplitude=amp))
         except ValueError as e:
             return {'too_close': str(e)[:80]}
@@ -176,6 +182,14 @@ def oracle(case, out):
         fs.append(('sites/radius-argument-mutated', f'the site_radius argument {case["radius"]} was modified by the analysis (inner fraction {case["frac"]})'))
     if out.get('second_call_same') is False:
         fs.append(('sites/second-analysis-differs', f'a second analysis with the same argument objects gives different states (radius {case["radius"]}, inner fraction {case["frac"]})'))
+    if case['mode'] == 'auto' and 'vib' in out:
+        G = synth.gram(case['m'])
+        K = _K(case['m'])
+        pts = case['sites8']
+        dmin = math.sqrt(float(min(synth.min_image_d2(G, [Fr(p[k] - q[k], 8) for k in range(3)], K) for i, p in enumerate(pts) for q in pts[:i])))
+        want = 2 * out['vib'] if not dmin < 4 * out['vib'] else 0.5 * dmin - 0.005
+        if abs(out['auto_radius'] - want) > 1e-9 * max(1.0, want):
+            fs.append(('sites/auto-radius-formula', f'automatic radius {out["auto_radius"]} but vibration amplitude {out["vib"]} and smallest site distance {dmin} give {want}'))
     an = _analyse(case, out)
     D19 = ('sites/pkdtree-misses-neighbour', 'MDAnalysis PeriodicKDTree (float32) returns a different neighbour set than its own brute-force search for this configuration '
            '(a site exactly on a face of a skewed cell is wrapped to an image outside the primary cell): ')
